@@ -138,7 +138,8 @@ def runModel (line : String) : List String :=
             | none => some s!"RS {name} out-of-fuel"
           | _ => none)
       | _ => []
-    [s!"DBU {showB (declaredBeforeUse P)} funs={P.length} ctxs={xs.length} extfree={showB (bodiesExtFree genCfg P)}", "EXCEPTIONS " ++ " ".intercalate (c13Exceptions genCfg)] ++ rs ++
+    [s!"DBU {showB (declaredBeforeUse P)} funs={P.length} ctxs={xs.length} extfree={showB (bodiesExtFree genCfg P)}", "EXCEPTIONS " ++ " ".intercalate (c13Exceptions genCfg),
+     "EXCEPTIONS11 " ++ " ".intercalate (c11Exceptions genCfg)] ++ rs ++
       bad.map (fun r => s!"CTCSET-MISMATCH #{r.id} class={r.cls} real={showB r.realCtc}") ++ xs ++ fs ++ ["ENDM"]
   | _ => ["BAD-MODEL-LINE", "ENDM"]
 
